@@ -54,6 +54,13 @@ def gen():
             raise F.FactError("%s: range of the new node not recognised" % fn)
         if not re.search(r"path\[end\s*-\s*1\]\.total_cost,\s*path\[begin\]\.begin_bytes,\s*path\[end\s*-\s*1\]\.end_bytes,", b):
             raise F.FactError("%s: byte range of the new node is no longer begin_bytes of the first .. end_bytes of the last" % fn)
+    # error returns: the model answers ErrRange (= SudachiError::InvalidRange) only for begin >= end; every `return Err(..)`
+    # and every `?` of the two functions is counted, so that a new way to fail re-opens C14_fact_concat_error_returns
+    for fn in ("concat_nodes", "concat_oov_nodes"):
+        b = F.fn_body(nd, fn, NODE)
+        n_err = len(re.findall(r"\bErr\s*\(", b))
+        n_q = len(re.findall(r"\)\s*\?\s*[;.)]", b)) + len(re.findall(r"\w\?\s*[;.)]", b))
+        out.append("Definition %s_error_returns : N := %s.\nDefinition %s_question_marks : N := %s.\n" % (fn, F.coq_int(n_err), fn, F.coq_int(n_q)))
     if not re.search(r"WordId::INVALID,\s*\)", F.fn_body(nd, "concat_nodes", NODE)):
         raise F.FactError("concat_nodes: new node is no longer given WordId::INVALID")
     if not re.search(r"let\s+pos_id\s*=\s*path\[begin\]\.word_info\(\)\.pos_id\(\);", F.fn_body(nd, "concat_nodes", NODE)):
